@@ -20,7 +20,9 @@ ChooseG == /\ stage = 1 /\ g' \in D /\ f' = f /\ stage' = 2
            /\ (Composable(f, g') /\ NN(f) + NN(g') > 0 =>
                  LET h == TensorRef(f, g')  q == QuotMap(NN(h), GluePairs(f, g')) IN
                  /\ EmitCase("hyper.coequalize_vertices", <<"C01", "C05">>, [h |-> PackH(h), q |-> FF(q, NumClasses(q))])
-                 /\ EmitCase("hyper.coequalize_vertices", <<"C01", "C05">>, [h |-> PackH(h), q |-> FF([i \in 1 .. NN(h) |-> 0], 1)]))
+                 /\ EmitCase("hyper.coequalize_vertices", <<"C01", "C05">>, [h |-> PackH(h), q |-> FF([i \in 1 .. NN(h) |-> 0], 1)])
+                 \* a map whose domain is not the node set is refused, not applied
+                 /\ EmitCase("hyper.coequalize_vertices", <<"C01", "C05">>, [h |-> PackH(h), q |-> FF([i \in 1 .. NN(h) + 1 |-> 0], 1)]))
 Next == ChooseF \/ ChooseG
 Spec == Init /\ [][Next]_vars
 
